@@ -584,7 +584,7 @@ class atom(boolean.AndRestriction):
 
         # If we are both ~ matches we match if we are identical:
         if self.op == other.op == "~":
-            return self.version == other.version and self.revision == other.revision
+            return cpv.ver_cmp(self.version, None, other.version, None) == 0
 
         # If we are both glob matches we match if one of us matches the other.
         if self.op == other.op == "=*":
